@@ -462,18 +462,20 @@ theorem wire_getSet (args : List Bytes) : WireRes (Handler.getSet args) := by
   · wcall
   · exact wire_errReply
 
-/-- MGET: the header `*len`, then bulk / null-bulk tokens; a panic in the middle leaves an
-    incomplete array (the C16 one-reply finding) but every token written is still readable -/
-theorem wgood_mGet_go (now : Int) : ∀ (ks : List Bytes) (s : MState) (acc : List Tok), WireOK acc →
-    WGood (Handler.mGet.go now ks s acc) := by
+/-- MGET: all keys are read first (a panic writes nothing), then the header `*len` and the bulk /
+    null-bulk tokens -/
+theorem wgood_mGet_go (args : List Bytes) (now : Int) : ∀ (ks : List Bytes) (s : MState) (acc : List Tok), WireOK acc →
+    WGood (Handler.mGet.go args now ks s acc) := by
   intro ks
   induction ks with
-  | nil => intro s acc h; rw [Handler.mGet.go]; exact wgood_done _ _ h
+  | nil =>
+    intro s acc h; rw [Handler.mGet.go]
+    exact wgood_done _ _ ((wireOK_cons _ _).2 ⟨tokOK_arr _ (by omega), h⟩)
   | cons k rest ih =>
     intro s acc h
     rw [Handler.mGet.go]
     split
-    · exact wgood_panic _ _ h
+    · exact wgood_panic_nil _
     · exact ih _ _ ((wireOK_append _ _).2 ⟨h, wireOK_single _ (tokOK_optBulk _)⟩)
     · exact ih _ _ h
 
@@ -482,7 +484,7 @@ theorem wire_mGet (args : List Bytes) : WireRes (Handler.mGet args) := by
   split
   · exact wire_errReply
   · intro s now ch
-    exact wgood_mGet_go now _ _ _ (wireOK_arr _ (by omega))
+    exact wgood_mGet_go args now _ _ _ wireOK_nil
 
 theorem wire_setRange (args : List Bytes) : WireRes (Handler.setRange args) := by
   unfold Handler.setRange
@@ -602,10 +604,10 @@ theorem step_wire {H : Table} (hH : TableWire H) {sv : Server} (hq : QueuesSat W
     · rw [exec_eq]; simp only
       split; · exact wireOK_err 0
       split; · exact wireOK_err 2
-      split; · exact wireOK_arr 0 (by omega)
       split; · exact wireOK_nullBulk
+      split; · exact wireOK_arr 0 (by omega)
       next h1 h2' h3 h4 =>
-        exact absurd ⟨by simpa using h1, h2', by simpa using h3, by simpa using h4⟩ hr
+        exact absurd ⟨by simpa using h1, h2', by simpa using h4, by simpa using h3⟩ hr
   by_cases h1 : c.name = "MULTI"
   · rw [dispatch_multi H sv c h1, multi_eq]; split
     · exact wireOK_err 0
